@@ -160,6 +160,8 @@ class StrToFloat(Harness):
         pairs = [("d.d", "dd"), ("sd.d", "d.ded"), ("dde-d", "d"), ("d.dd", "sd.de+d"), ("ded", "de+dd"), ("d", "d.de-d")]
         out += [dict(shapes=list(p)) for p in pairs] + [dict(shapes=["d.d", "dde-d", "sdd"])]
         # texts that start with the decimal point ('.5'), alone and in every row position of a batch
+        # a leading sign that may be '+' or '-'
+        out += [dict(shapes=["Sd"]), dict(shapes=["Sd.d"]), dict(shapes=["S.d", "d.d"]), dict(shapes=["d", "Sd.de-d", "Sdd"])]
         out += [dict(shapes=[".d"]), dict(shapes=[".dd"]), dict(shapes=[".ded"]), dict(shapes=["d.d", ".d"]), dict(shapes=[".d", "d.d"]),
                 dict(shapes=["d", ".dd", "d.d"]), dict(shapes=[".d", ".d"]), dict(shapes=["sd.d", ".ded", "d.d"])]
         # the ends of the double range (literal exponents): the value must still be the text's value
@@ -180,7 +182,7 @@ class StrToFloat(Harness):
                     V.int(f"c{r}_{j}", 48, 57)
                 elif ch == "s":
                     V.int(f"c{r}_{j}", 45, 45)
-                elif ch in "+-":
+                elif ch == "S" or ch in "+-":
                     v = V.int(f"c{r}_{j}", 43, 45); V.assume(v.t != 44)
 
     LIT = {"m": 45, "p": 43}       # literal minus / plus; digits 0-9 in a shape are literal digits
@@ -188,7 +190,7 @@ class StrToFloat(Harness):
     def _bytes(self, skel, x, r):
         out = []
         for j, ch in enumerate(skel["shapes"][r]):
-            out.append(x[f"c{r}_{j}"] if ch in "ds+-" else self.LIT.get(ch, ord(ch)))
+            out.append(x[f"c{r}_{j}"] if ch in "dsS+-" else self.LIT.get(ch, ord(ch)))
         return out
 
     def call(self, skel, x, ctx):
@@ -210,6 +212,8 @@ class StrToFloat(Harness):
         for j, ch in enumerate(mant):
             if ch == "s":
                 neg = True
+            elif ch == "S":              # a sign that is '+' or '-'
+                neg = (g(j) == 45)
             elif ch == "d" or ch.isdigit():
                 digs.append(g(j) if ch == "d" else ord(ch))
                 ndec += seen_dot
@@ -219,8 +223,10 @@ class StrToFloat(Harness):
         for d in digs:
             m = m * 10 + (d - 48)
         val = (z3.ToReal(m) if z else Fraction(m)) / (10 ** ndec)
-        if neg:
+        if neg is True:
             val = -val
+        elif neg is not None:
+            val = z3.If(neg, -val, val) if z else (-val if neg else val)
         if exp is not None:
             off = len(mant) + 1
             esign = None
